@@ -3,7 +3,7 @@ from __future__ import annotations
 
 import ast
 
-from .. import actions, probe, repo, typed
+from .. import actions, constfold, probe, repo, typed
 from ..absval import Const, ListV, Node, members
 from ..common import AnalysisError, Check, norm_stmt, parse_py
 from ..ir import Cut, Lit, Look, Ref, Tok, walk_alt_items
@@ -228,6 +228,103 @@ def rule_p4(chk: Check, ix: Index, I):
     return
 
 
+def rule_p5(chk: Check, ix: Index, rule_id: str = "P5-glue"):
+    """How two adjacent pieces of one word are glued (`Parser._append_node_or_token`), decided by evaluating the builder over
+    every combination of what came before (nothing / a text constant / an `@(...)` spread / a tuple already built / any other
+    expression) and what comes next (a word token / a spread / any other expression): text joins text, a spread next to text
+    makes the tuple xonsh multiplies out, everything else is string concatenation with `+` — in particular `prefix$VAR` and
+    `prefix$(cmd)` are one argument, not a tuple."""
+    f = ix.get("Parser._append_node_or_token")
+    params = [a.arg for a in f.node.args.args if a.arg != "self"]
+    if len(params) != 2:
+        raise AnalysisError("_append_node_or_token no longer takes (tree, cmd)")
+
+    class FakeTok:
+        def __init__(self, string, start, end):
+            self.string, self.start, self.end = string, start, end
+
+        def loc(self):
+            return {"lineno": self.start[0], "col_offset": self.start[1], "end_lineno": self.end[0], "end_col_offset": self.end[1]}
+
+        def loc_start(self):
+            return {"lineno": self.start[0], "col_offset": self.start[1]}
+
+        def loc_end(self):
+            return {"end_lineno": self.end[0], "end_col_offset": self.end[1]}
+
+    def L(c0, c1):
+        return dict(lineno=1, col_offset=c0, end_lineno=1, end_col_offset=c1)
+    load = ast.Load()
+    env_lookup = ast.Subscript(value=ast.Name(id="env", ctx=load, **L(2, 3)), slice=ast.Constant(value="X", **L(3, 4)), ctx=load, **L(2, 6))
+    spread = ast.Starred(value=ast.Name(id="v", ctx=load, **L(4, 5)), ctx=load, **L(2, 6))
+    trees = {
+        "nothing": None,
+        "text": ast.Constant(value="ab", **L(2, 6)),
+        "spread": spread,
+        "tuple": ast.Tuple(elts=[ast.Constant(value="ab", **L(0, 2)), spread], ctx=load, **L(0, 6)),
+        "expr": env_lookup,
+        "call": ast.Call(func=ast.Name(id="f", ctx=load, **L(2, 3)), args=[], keywords=[], **L(2, 6)),
+    }
+    cmds = {
+        "word": FakeTok("cd", (1, 6), (1, 8)),
+        "spread": ast.Starred(value=ast.Name(id="w", ctx=load, **L(8, 9)), ctx=load, **L(6, 10)),
+        "expr": ast.Subscript(value=ast.Name(id="env", ctx=load, **L(6, 7)), slice=ast.Constant(value="Y", **L(7, 8)), ctx=load, **L(6, 10)),
+        "call": ast.Call(func=ast.Name(id="g", ctx=load, **L(6, 7)), args=[], keywords=[], **L(6, 10)),
+        "fstring": ast.JoinedStr(values=[], **L(6, 10)),
+    }
+    ev = constfold.builder_expr_eval(("loc", "loc_end", "loc_start"))
+    bad = []
+    n = 0
+    for tk, tree in trees.items():
+        for ck, cmd in cmds.items():
+            n += 1
+            try:
+                got = constfold.eval_pure_function(f.node, {"self": object(), params[0]: tree, params[1]: cmd},
+                                                   extra={"TokenInfo": FakeTok, "ast": ast, "Load": load}, expr_eval=ev)
+            except constfold.PureEvalError as e:
+                chk.count(rule_id)
+                chk.undecided(rule_id, "Parser._append_node_or_token", f.where, f"the builder is outside the evaluable subset: {e}")
+                return
+            is_tok = isinstance(cmd, FakeTok)
+            piece = ("Constant", cmd.string) if is_tok else ("same", id(cmd))
+
+            def desc(x):
+                if isinstance(x, ast.Constant):
+                    return ("Constant", x.value)
+                return ("same", id(x))
+            if tree is None:
+                want = piece
+                have = desc(got)
+            elif isinstance(tree, ast.Constant) and is_tok:
+                want, have = ("Constant", tree.value + cmd.string), desc(got)
+            elif isinstance(tree, ast.Constant) and isinstance(cmd, ast.Starred):
+                want = ("Tuple", [desc(tree), piece])
+                have = ("Tuple", [desc(e) for e in got.elts]) if isinstance(got, ast.Tuple) else (type(got).__name__,)
+            elif isinstance(tree, ast.Starred) and is_tok:
+                want = ("Tuple", [desc(tree), piece])
+                have = ("Tuple", [desc(e) for e in got.elts]) if isinstance(got, ast.Tuple) else (type(got).__name__,)
+            elif isinstance(tree, ast.Tuple) and is_tok:
+                want = ("Tuple", [desc(e) for e in tree.elts] + [piece])
+                have = ("Tuple", [desc(e) for e in got.elts]) if isinstance(got, ast.Tuple) else (type(got).__name__,)
+            else:
+                want = ("BinOp", desc(tree), "Add", piece)
+                have = ("BinOp", desc(got.left), type(got.op).__name__, desc(got.right)) if isinstance(got, ast.BinOp) else (type(got).__name__,)
+            if want != have:
+                bad.append((f"{tk} + {ck}", f"gives {have[0]}, expected {want[0]}"))
+                continue
+            # the glued node starts where the first piece starts and ends where the second one ends
+            if tree is not None and isinstance(got, ast.AST):
+                end = cmd.end if is_tok else (cmd.end_lineno, cmd.end_col_offset)
+                span = (got.lineno, got.col_offset, getattr(got, "end_lineno", None), getattr(got, "end_col_offset", None))
+                if span != (tree.lineno, tree.col_offset, end[0], end[1]):
+                    bad.append((f"{tk} + {ck}", f"span {span}, expected {(tree.lineno, tree.col_offset, *end)}"))
+    chk.count(rule_id)
+    chk.units["glue_cases_evaluated"] = n
+    chk.require(not bad, rule_id, "Parser._append_node_or_token", f.where,
+                f"adjacent pieces of a subprocess word are glued wrongly: {bad[:4]} (text+text is one constant, text next to an `@(...)` "
+                f"spread is the tuple that is multiplied out, anything else is `+` concatenation into ONE argument)")
+
+
 def run(chk: Check):
     chk.explanation = (
         "P1: the (open, close, runtime method) triples of the four subprocess forms, and the shapes built for @(..) and @$(..), are "
@@ -247,6 +344,7 @@ def run(chk: Check):
     rule_p2(chk, ix, ir)
     rule_p3(chk, ix, ir)
     rule_p4(chk, ix, tr.interp)
+    rule_p5(chk, ix)
     from .c01 import rule_result_span
     rule_result_span(chk, ir)
     # every bracket form must stay reachable through the look-aheads in front of it, and adjacency compares columns that
